@@ -158,6 +158,81 @@ pub fn check_ed25519(seed: &[u8; 32], msg: &[u8], muts: &[Mutation], shard: &mut
     }
 }
 
+/// Hostile keys: small-order Ed25519 points as public key and as R (S = 0), and the BLS point at
+/// infinity as key and signature. No (key, signature) pair may verify for two different messages
+/// ("any change to the message makes verification fail").
+pub fn check_weak_keys(shard: &mut Shard) {
+    const SMALL_ORDER: [&str; 10] = [
+        "0100000000000000000000000000000000000000000000000000000000000000",
+        "ecffffffffffffffffffffffffffffffffffffffffffffffffffffffffffff7f",
+        "0000000000000000000000000000000000000000000000000000000000000000",
+        "0000000000000000000000000000000000000000000000000000000000000080",
+        "26e8958fc2b227b045c3f489f2ef98f0d5dfac05d3c63339b13802886d53fc05",
+        "26e8958fc2b227b045c3f489f2ef98f0d5dfac05d3c63339b13802886d53fc85",
+        "c7176a703d4dd84fba3c0b760d10670f2a2053fa2c39ccc64ec7fd7792ac037a",
+        "c7176a703d4dd84fba3c0b760d10670f2a2053fa2c39ccc64ec7fd7792ac03fa",
+        // non-canonical encodings of the identity / order-2 point
+        "0100000000000000000000000000000000000000000000000000000000000080",
+        "eeffffffffffffffffffffffffffffffffffffffffffffffffffffffffffff7f",
+    ];
+    let msgs: Vec<Vec<u8>> = (0u8..16).map(|i| vec![i; (i as usize) + 1]).collect();
+    for a in SMALL_ORDER {
+        for r in SMALL_ORDER {
+            let mut key = [0u8; 32];
+            key.copy_from_slice(&unhex(a));
+            let mut sig = [0u8; 64];
+            sig[..32].copy_from_slice(&unhex(r));
+            let mut accepted = vec![];
+            for m in &msgs {
+                shard.eval();
+                shard.count("ed25519:weak-key-probes");
+                match catch(std::panic::AssertUnwindSafe(|| verify_ed25519(m, &Ed25519PublicKey(key), &Ed25519Signature(sig)))) {
+                    Ok(true) => accepted.push(hx(m)),
+                    Ok(false) => {}
+                    Err(p) => shard.violation("ed25519:verify-panic-on-weak-key", json!({"key": a, "sig_r": r, "panic": p.summary()})),
+                }
+            }
+            shard.nontrivial(&("ed25519-weak", a, r, accepted.len()));
+            if accepted.len() >= 2 {
+                shard.violation(
+                    "ed25519:weak-key-signature-verifies-for-different-messages",
+                    json!({"case": {"scheme": "weak-keys"}, "key": a, "signature": hx(&sig), "messages": accepted}),
+                );
+            }
+        }
+    }
+    // BLS: point at infinity (compressed form: 0xc0 then zeros)
+    let mut pk = [0u8; 48];
+    pk[0] = 0xc0;
+    let mut sg = [0u8; 96];
+    sg[0] = 0xc0;
+    let mut accepted = 0;
+    for m in msgs.iter().take(4) {
+        shard.eval();
+        shard.count("bls:weak-key-probes");
+        let r = catch(std::panic::AssertUnwindSafe(|| {
+            (
+                verify_bls12381_v1(m, &Bls12381G1PublicKey(pk), &Bls12381G2Signature(sg)),
+                aggregate_verify_bls12381_v1(&[(Bls12381G1PublicKey(pk), m.clone())], &Bls12381G2Signature(sg)),
+                fast_aggregate_verify_bls12381_v1(m, &[Bls12381G1PublicKey(pk)], &Bls12381G2Signature(sg)),
+                fast_aggregate_verify_bls12381_v1_anemone(m, &[Bls12381G1PublicKey(pk)], &Bls12381G2Signature(sg)),
+            )
+        }));
+        match r {
+            Ok((a, b, c, d)) => {
+                if a || b || c || d {
+                    accepted += 1;
+                }
+            }
+            Err(p) => shard.violation("bls:verify-panic-on-infinity-key", json!({"panic": p.summary()})),
+        }
+    }
+    shard.nontrivial(&("bls-weak", accepted));
+    if accepted >= 2 {
+        shard.violation("bls:infinity-key-signature-verifies-for-different-messages", json!({"case": {"scheme": "weak-keys"}}));
+    }
+}
+
 // ---------------------------------------------------------------------------------------------
 // Secp256k1
 // ---------------------------------------------------------------------------------------------
@@ -678,6 +753,7 @@ pub fn run(args: &Args) -> i32 {
     .floor("bls:mutated-signature", args.tier.pick(20_000, 400_000))
     .floor("bls:mutated-key", args.tier.pick(10_000, 200_000))
     .floor("bls:mutated-message", args.tier.pick(3_000, 60_000))
+    .floor("ed25519:weak-key-probes", 1600)
     .floor("bls_aggregate_cases", args.tier.pick(300, 6_000))
     .floor("bls_aggregate:valid:all-valid", args.tier.pick(250, 5_000))
     .floor("bls_aggregate:invalid:one-component-signs-other-message", args.tier.pick(250, 5_000))
@@ -717,6 +793,7 @@ pub fn run(args: &Args) -> i32 {
                     let vseed = case["vseed"].as_str().and_then(|s| s.parse().ok()).unwrap_or(0);
                     check_bls_aggregate(&seeds, &msgs, vseed, shard);
                 }
+                "weak-keys" => check_weak_keys(shard),
                 other => eprintln!("unknown scheme {other:?}"),
             }
         });
@@ -734,6 +811,7 @@ pub fn run(args: &Args) -> i32 {
         let mut bls_time = Duration::ZERO;
         if idx == 0 {
             check_bls_aggregate(&[], &[], 1, shard);
+            check_weak_keys(shard);
         }
         while shard.evaluations < per_shard && !shard.time_up() {
             cases += 1;
